@@ -15,6 +15,9 @@ from simpleline.errors import NothingScheduledError
 import simpleline.input.input_handler as ih
 
 class Blocked(BaseException): pass
+class Budget(BaseException): pass
+EVENT_BUDGET = 6000        # observations per session; beyond it the session is cut with outcome "fuel"
+CALL_BUDGET = 20000        # process_signals calls per session (a spinning wait_on_input logs nothing)
 class Render:
     """rendering oracle shared by machine and adapter checks (rendering is modelled separately)"""
     @staticmethod
@@ -35,10 +38,40 @@ class Session:
     def __init__(self, lines):
         self.lines = list(lines); self.gate = threading.Semaphore(0); self.waiting = 0; self.lock = threading.Lock(); self.dead = False
 SESS = None
+XLOG = []          # implementation-only observations for the property oracles: [event, context]; not compared with the model
+OUTBUF = [None]
+_QUIDS = {}
+def _ctx():
+    """context of an observation: nesting depth, identity of the active level, the screen stack, stdout position"""
+    ctx = {}
+    try:
+        loop = App.get_event_loop()
+        qs = getattr(loop, "_event_queues", None)
+        if qs is not None:
+            ctx["depth"] = len(qs)
+            ctx["run_loop"] = bool(getattr(loop, "_run_loop", True))
+            ctx["lvl"] = _QUIDS.setdefault(id(loop._active_queue), len(_QUIDS))
+            ctx["levels"] = [_QUIDS.setdefault(id(q), len(_QUIDS)) for q in qs]
+        else:
+            ctx["depth"] = len(getattr(loop, "_event_loops", []))
+        dump = App.get_scheduler().dump_stack().split("\n")[2:-2]
+        ctx["stack"] = [l[len("ScreenData("):-1].split(",") for l in reversed(dump)]      # bottom ... top: [name, args, modal]
+    except Exception as e:      # pragma: no cover
+        ctx["ctx_error"] = repr(e)
+    if OUTBUF[0] is not None:
+        ctx["out"] = OUTBUF[0].tell()
+    return ctx
+def xlog(ev):
+    if threading.current_thread().name == "SimplelineInputThread":
+        XLOG.append([list(ev), {"reader": True, "out": OUTBUF[0].tell() if OUTBUF[0] is not None else None}])
+    else:
+        XLOG.append([list(ev), _ctx()])
 class Log(list):
     deliver_at = set()
     def append(self, ev):
         list.append(self, ev)
+        xlog(ev)
+        if len(XLOG) > EVENT_BUDGET and threading.current_thread().name != "SimplelineInputThread": raise Budget()
         if len(self) in Log.deliver_at and threading.current_thread().name != "SimplelineInputThread":
             if SESS is not None and SESS.waiting > 0 and not SESS.dead:
                 ths = [t for t in threading.enumerate() if t.name == "SimplelineInputThread"]
@@ -105,6 +138,11 @@ class World:
             self.classes[name] = type(name, (AbstractSignal,), {})
         return self.classes[name]
     def act(self, a, me=None):
+        xlog(("api",) + tuple(a))
+        if len(XLOG) > EVENT_BUDGET: raise Budget()
+        self._act(a, me)
+        xlog(("api<", a[0]))
+    def _act(self, a, me=None):
         loop = App.get_event_loop(); sch = App.get_scheduler(); k = a[0]
         if k == "enq":
             s = self.cls(a[1])(self.obj(a[3]), a[2]); s.sid = a[4]; loop.enqueue_signal(s)
@@ -172,7 +210,7 @@ def make_screen(W, spec):
 
 def run_real(case, loopkind="main"):
     global SESS
-    SESS = Session(case["stdin"]); LOG.clear(); Log.deliver_at = set(case.get("deliver_at", []))
+    SESS = Session(case["stdin"]); LOG.clear(); Log.deliver_at = set(case.get("deliver_at", [])); del XLOG[:]; _QUIDS.clear(); OUTBUF[0] = None
     if loopkind == "glib":
         sys.path.insert(0, os.path.join(os.path.dirname(os.path.abspath(__file__)), "fakegi"))
         from gi.repository import GLib
@@ -186,7 +224,13 @@ def run_real(case, loopkind="main"):
                 return super().process_signals(return_after)
         App.initialize(event_loop=BudgetLoop())
     else:
-        App.initialize()
+        class BudgetMainLoop(MainLoop):
+            calls = 0
+            def process_signals(self, return_after=None):
+                BudgetMainLoop.calls += 1
+                if BudgetMainLoop.calls > CALL_BUDGET: raise Budget()
+                return super().process_signals(return_after)
+        App.initialize(event_loop=BudgetMainLoop())
     App.get_configuration().width = case.get("width", 80)
     App.get_configuration().should_run_with_empty_stack = bool(case.get("run_empty"))
     W = World(case); loop = App.get_event_loop()
@@ -204,21 +248,25 @@ def run_real(case, loopkind="main"):
     if case.get("exc_handler"):
         loop.register_signal_handler(ExceptionSignal, lambda s, d: LOG.append(("EXC-handled",)))
     if case.get("quit_cb") is not None: loop.set_quit_callback(lambda d: LOG.append(("quitcb", d)), case["quit_cb"])
-    out = io.StringIO(); err = io.StringIO(); old = sys.stdout, sys.stderr; sys.stdout, sys.stderr = out, err
+    out = io.StringIO(); err = io.StringIO(); old = sys.stdout, sys.stderr; sys.stdout, sys.stderr = out, err; OUTBUF[0] = out
     try:
         try:
             for a in case["init"]: W.act(a)
             App.run(); outcome = ("returned",)
         except Blocked: outcome = ("blocked",)
+        except Budget: outcome = ("fuel",)
         except SystemExit as e: outcome = ("killed", e.code)
         except NothingScheduledError: outcome = ("raised", "NothingScheduled", None)
         except ExitMainLoop: outcome = ("raised", "exit", None)
         except BaseException as e:
             outcome = ("blocked",) if type(e).__name__ == "Blocked" else ("raised", "err", type(e).__name__)
     finally:
-        sys.stdout, sys.stderr = old
+        try: xlog(("end",))
+        except BaseException: pass
+        sys.stdout, sys.stderr = old; OUTBUF[0] = None
         snapshot = list(LOG)
         # release any reader still waiting so threads do not pile up
         for t in [t for t in threading.enumerate() if t.name == "SimplelineInputThread"]:
             SESS.dead = True; SESS.gate.release(); t.join(2)
+    run_real.xlog = [list(x) for x in XLOG]; run_real.stderr = err.getvalue()
     return outcome, snapshot, out.getvalue()
